@@ -2,7 +2,10 @@ import FrappyProofs.Lemmas.DatatypesSound
 import FrappyProofs.Lemmas.DatatypesTotal
 import FrappyProofs.Lemmas.DatatypesMonitor
 import FrappyProofs.Lemmas.DatatypesDenotesM
+import FrappyProofs.Lemmas.DatatypesImport
 import FrappyProofs.Lemmas.RatLawful
+import FrappyProofs.Lemmas.DatatypesCanon
+import FrappyProofs.Lemmas.RatGrid
 import FrappyModel.Generated.C01
 /-
 C01 — property theorems (nothing but property theorems and their non-vacuity examples).
@@ -42,50 +45,59 @@ theorem validate_denotes (dt : DType F) (hwf : dt.WF) (v : PVal F) (prev : Optio
     Denotes dt prev v r :=
   conv_denotes dt v prev r hwf hprev h
 
-/-- full statement for the wire path: the JSON value stands for a Python value `v` (`WireDenotes`:
-no string taken as a number, no fraction truncated, strict base64, equal lengths) and the accepted
-value denotes `v` -/
-def accept_denotes_statement : Prop :=
-  ∀ (F : Type) [FloatOps F] [LawfulFloatOps F] (dt : DType F), dt.WF → ∀ (j : JVal F) (prev : Option (PVal F)),
-    (∀ p, prev = some p → InSet dt p) → ∀ r, acceptWire dt j prev = .ok r →
-    ∃ v, WireDenotes dt j v ∧ Denotes dt prev v r
+/-- `import_value` produces the Python value the JSON value stands for: numbers for numbers (a scaled
+value travels as its integer grid index: no string taken as a number, no fraction truncated), strict
+base64 for blobs, lists of equal length for arrays and tuples (no string taken as a list of characters),
+objects key-wise for structs -/
+theorem import_denotes (dt : DType F) (j : JVal F) (v : PVal F) (h : importValue dt j = .ok v) :
+    WireDenotes dt j v := importValue_denotes dt j v h
 
-/-- proved part: the accepted value denotes the value `import_value` produced.  Missing: the theorem
-`importValue dt j = .ok v → WireDenotes dt j v` (the monitor `wireDenotesB` judges exactly this on
-every outcome of the real `import_value`; the proof is not written yet). -/
-theorem accept_denotes_partial (dt : DType F) (hwf : dt.WF) (j : JVal F) (prev : Option (PVal F))
+/-- the wire path: the JSON value stands for a Python value `v`, and the accepted value denotes `v` -/
+theorem accept_denotes (dt : DType F) (hwf : dt.WF) (j : JVal F) (prev : Option (PVal F))
     (hprev : ∀ p, prev = some p → InSet dt p) (r : PVal F) (h : acceptWire dt j prev = .ok r) :
-    ∃ v, importValue dt j = .ok v ∧ Denotes dt prev v r := by
+    ∃ v, WireDenotes dt j v ∧ Denotes dt prev v r := by
   unfold acceptWire at h
   split at h
   · cases h
   · rename_i v hv
-    exact ⟨v, hv, validate_denotes dt hwf v prev hprev r h⟩
+    exact ⟨v, import_denotes dt j v hv, validate_denotes dt hwf v prev hprev r h⟩
 
-/-! ## validating a validated value returns it unchanged (statements; not proved yet) -/
+/-! ## validating a validated value returns it unchanged -/
 
-/-- the grid of a scaled type is exactly representable on its index range: `round((k*scale)/scale) = k`
-and the range test admits every grid value between the limits (true for every `k` on the `Rat`
-carrier; for binary64 it fails only when `scale` is below half an ulp of the limits) -/
-def GridExact : DType F → Prop
-  | .scaled scale min max _ _ =>
-    ∀ k x, DType.ofGrid scale k = some x → BetweenSnapped scale min max x →
-      DType.gridIndex scale (FloatOps.addZero x) = some k ∧
-      FloatOps.lt (FloatOps.sub min scale) (FloatOps.addZero x) = true ∧
-      FloatOps.lt (FloatOps.addZero x) (FloatOps.add max scale) = true
-  | _ => True
+/-- a value of the declared value set in canonical form (`Canon`: no `-0.0` leaf — `validate` returns
+`0.0` for `-0.0`, equal in Python's sense but not the same representation) is returned unchanged, without
+and with itself as `previous`.  `GridExact dt`: for every scaled type in the tree the grid is exactly
+representable on the declared range (`round((k*scale)/scale) = k`, finite); it holds for every scaled
+type over `Rat` and for binary64 wherever `scale` is not below the float spacing at the limits. -/
+theorem validate_idem (dt : DType F) (hwf : dt.WF) (hgrid : GridExact dt) (r : PVal F) (hin : InSet dt r)
+    (hcanon : Canon r) : validate dt r none = .ok r ∧ validate dt r (some r) = .ok r :=
+  conv_idem dt r hwf hgrid hin hcanon
 
-/-- full statement of idempotence (kept for the record; the monitors judge it on every accepted value
-of the implementation: `re1`, `re2`, `recall` in the harness) -/
+/-- what `validate` returns is in canonical form (given that `previous` is) -/
+theorem validate_canon (dt : DType F) (hwf : dt.WF) (v : PVal F) (prev : Option (PVal F))
+    (hprev : ∀ p, prev = some p → Canon p) (r : PVal F) (h : validate dt v prev = .ok r) : Canon r :=
+  conv_canon dt v prev r hwf hprev h
+
+/-- "validating an already validated value returns it unchanged" -/
+theorem revalidate_unchanged (dt : DType F) (hwf : dt.WF) (hgrid : GridExact dt) (v : PVal F)
+    (prev : Option (PVal F)) (hprev : ∀ p, prev = some p → InSet dt p ∧ Canon p) (r : PVal F)
+    (h : validate dt v prev = .ok r) : validate dt r none = .ok r ∧ validate dt r (some r) = .ok r :=
+  validate_idem dt hwf hgrid r
+    (validate_sound dt hwf v prev (fun p hp => (hprev p hp).1) r h)
+    (validate_canon dt hwf v prev (fun p hp => (hprev p hp).2) r h)
+
+/-- the same statement without the grid hypothesis is not a consequence of the float laws (and is false
+for binary64 where `scale` is below the float spacing at the limits; the repaired `ScaledInteger.validate`
+removed the failing inputs the search found, see design notes) -/
 def validate_idem_statement : Prop :=
-  ∀ (F : Type) [FloatOps F] [LawfulFloatOps F] (dt : DType F), dt.WF → ∀ (v : PVal F) (prev : Option (PVal F)),
-    (∀ p, prev = some p → InSet dt p ∧ Canon p) → ∀ r, validate dt v prev = .ok r →
-    (∀ sub : DType F, GridExact sub) →
+  ∀ (F : Type) [FloatOps F] [LawfulFloatOps F] (dt : DType F), dt.WF → ∀ (r : PVal F), InSet dt r → Canon r →
     validate dt r none = .ok r ∧ validate dt r (some r) = .ok r
 
+/-- idempotence of the conversion-only path `__call__` (not proved; judged by the monitor `judgeCall` on
+every outcome of the implementation) -/
 def call_idem_statement : Prop :=
-  ∀ (F : Type) [FloatOps F] [LawfulFloatOps F] (dt : DType F), dt.WF → ∀ (v r : PVal F), call dt v = .ok r →
-    (∀ sub : DType F, GridExact sub) → call dt r = .ok r
+  ∀ (F : Type) [FloatOps F] [LawfulFloatOps F] (dt : DType F), dt.WF → GridExact dt → ∀ (v r : PVal F),
+    call dt v = .ok r → call dt r = .ok r
 
 /-! ## never any other kind of exception -/
 
@@ -111,6 +123,16 @@ theorem accept_total (dt : DType F) (j : JVal F) (prev : Option (PVal F)) (c : S
 theorem inSetB_sound (dt : DType F) (v : PVal F) (h : inSetB dt v = true) : InSet dt v := by
   have h' : InSetM dt v := of_decide_eq_true h
   exact inSetG_mono (fun _ _ => onGrid_of_near) dt v h'
+
+/-- completeness of the value-set monitor wherever its decidable grid test finds the grid values
+(`OnGridNear`: an index within one of `round(x/scale)` gives `x`) — e.g. on the exact carrier -/
+theorem inSetB_complete (hgrid : ∀ s x : F, OnGrid s x → OnGridNear s x) (dt : DType F) (v : PVal F)
+    (h : InSet dt v) : inSetB dt v = true := by
+  have h' : InSetM dt v := inSetG_mono hgrid dt v h
+  exact decide_eq_true h'
+
+example (dt : DType Rat) (v : PVal Rat) : InSet dt v ↔ inSetB dt v = true :=
+  ⟨inSetB_complete rat_onGridNear dt v, inSetB_sound dt v⟩
 
 theorem inSetB_iff (dt : DType F) (v : PVal F) : inSetB dt v = true ↔ InSetM dt v := decide_eq_true_iff
 
@@ -138,11 +160,11 @@ theorem exTree_wf : exTree.WF := by
 
 theorem exPrev_inSet : InSet exTree exPrev := inSetB_sound _ _ (by decide +kernel)
 
-/-- the hypotheses of `accept_sound`, `accept_denotes_partial`, `accept_total` are met by a concrete
+/-- the hypotheses of `accept_sound`, `accept_denotes`, `accept_total` are met by a concrete
 request on a nested tree with a previous value; the model accepts it, merges member `b` from the
 previous value, and the result is the expected one -/
 example : ∃ r, acceptWire exTree exWire (some exPrev) = .ok r ∧ InSet exTree r ∧
-    (∃ v, importValue exTree exWire = .ok v ∧ Denotes exTree (some exPrev) v r) ∧
+    (∃ v, WireDenotes exTree exWire v ∧ Denotes exTree (some exPrev) v r) ∧
     PVal.same r exResult = true := by
   have hb : (match acceptWire exTree exWire (some exPrev) with
       | .ok r => PVal.same r exResult
@@ -153,7 +175,7 @@ example : ∃ r, acceptWire exTree exWire (some exPrev) = .ok r ∧ InSet exTree
   | error e => rw [h] at hb; cases hb
   | ok r =>
     rw [h] at hb
-    exact ⟨r, rfl, accept_sound exTree exTree_wf _ _ hp r h, accept_denotes_partial exTree exTree_wf _ _ hp r h, hb⟩
+    exact ⟨r, rfl, accept_sound exTree exTree_wf _ _ hp r h, accept_denotes exTree exTree_wf _ _ hp r h, hb⟩
 
 /-- a rejected request: a JSON string offered to the scaled elements is a bad-value error, not a number -/
 example : (match acceptWire exTree (.obj [("a", .arr [.str "5"]), ("c", .int 1)]) none with
@@ -161,8 +183,15 @@ example : (match acceptWire exTree (.obj [("a", .arr [.str "5"]), ("c", .int 1)]
     | _ => false) = true := by
   decide +kernel
 
-/-- `GridExact` holds on the exact carrier for a concrete scaled type (the hypothesis of the idempotence statement is satisfiable) -/
-example : DType.gridIndex (1/10 : Rat) (FloatOps.addZero (3/10 : Rat)) = some 3 := by decide +kernel
+/-- the hypotheses of `validate_idem` are satisfiable: the example tree has an exact grid over `Rat`,
+and the accepted value of the example above is returned unchanged -/
+theorem exTree_gridExact : GridExact exTree := by
+  simp only [exTree, GridExact, GridExactFields, and_true]
+  exact rat_gridExact_example
+
+example : validate exTree exResult none = .ok exResult ∧ validate exTree exResult (some exResult) = .ok exResult :=
+  validate_idem exTree exTree_wf exTree_gridExact exResult (inSetB_sound _ _ (by decide +kernel))
+    (by simp only [exResult, Canon, CanonFields, CanonList]; decide +kernel)
 
 /-! ## constants of the source -/
 
